@@ -94,6 +94,8 @@ def cases(draw):
             o["exc"] = draw(st.sampled_from(FAULTS))
         if k == "resize":
             o["cols"], o["rows"] = draw(st.integers(1, 12)), draw(st.integers(1, 8))
+        if k == "bad_args":
+            o["keep"] = draw(st.booleans())
         ops.append(o)
     if animated_kind(kind) and draw(st.booleans()):
         # the pattern the cache makes delicate: a complete first loop (+1), a setting change, another frame
@@ -197,6 +199,28 @@ def check_history(case, rec):
             one_shot(o, lambda: r.render(None, padding(o)), "render")
         elif k == "str":
             one_shot(o, lambda: str(r), "str")
+        elif k == "bad_args" and animated and o.get("keep"):
+            # a failed iterator construction from caller-owned data (finalize=False): the data stays the caller's,
+            # un-finalized, and the caller can finalize it (once) afterwards
+            n0 = len(r.datas)
+            data = r._get_render_data_(iteration=True)
+            try:
+                RenderIterator._from_render_data_(r, data, RenderArgs(H["Other"], H["OtherArgs"](1)), None, 1, False, finalize=False)
+                fail("incompatible render args accepted by RenderIterator._from_render_data_()", {"kind": "args"})
+            except Violation:
+                raise
+            except Exception:
+                pass
+            if data.finalized or r.datas[n0][1] != 0:
+                fail("render data handed in with finalize=False was finalized by a failed iterator construction "
+                     f"(finalize calls: {r.datas[n0][1]})", {"kind": "caller_owned_finalized", "where": "failed_ctor"})
+            data.finalize()
+            if r.datas[n0][1] != 1:
+                fail(f"caller's finalize() after a failed construction -> {r.datas[n0][1]} finalize calls", {"kind": "finalize_count"})
+            expect_final.add(n0)
+            data = None
+            flags.add("failed_ctor_keep")
+            trace.append(("bad_ctor_keep",))
         elif k == "bad_args":
             n0 = len(r.datas)
             try:
